@@ -93,6 +93,7 @@ def run(ctx):
     r152(ctx, dists)
     r153(ctx)
     r1510_odd_erf_inv(ctx)
+    r1511_composed_samplers(ctx)
     r154_inverse_pairs(ctx, dists)
     r155_density_is_derivative(ctx, dists)
     r156_erf_inv_centres(ctx)
@@ -512,3 +513,66 @@ def r1510_odd_erf_inv(ctx):
                         f'erf_inv is not odd on the branch {branch[:90]}: for y < 0 it returns `{short(vn, 50)}`, for y > 0 `{short(vp, 50)}` -- the first must be the negation '
                         f'of the second (the inverse cdfs of the normal family are wrong, not merely imprecise, for probabilities in the lower tail)',
                         module=mod, where='utils.erf_inv')
+
+
+def r1511_composed_samplers(ctx):
+    """Samplers that draw from a helper Gamma distribution declare a density of another family; the two agree only if the helper is built
+    with the parameters the transformation law asks for (my transcription of the laws, listed in the evidence):
+        Pearson5(alpha, beta)  =  c / X,  X ~ Gamma(shape alpha, scale s)   requires   c / s == beta      (inverse gamma)
+        Erlang(k, scale)       =  X,      X ~ Gamma(shape k, scale s)       requires   s == scale
+    The constructor arguments of the helper are compared as rational functions of the distribution's own constructor parameters (E9)."""
+    from ..algebra import Rat, Translator, Unsupported, ctor_field_defs, p_atom, positive_ctor_params
+    prog = ctx.prog
+    ctx.rule('R15.11', 'helper Gamma distributions of composed samplers (Pearson5 = c / Gamma, Erlang = Gamma) carry the parameters the transformation law requires')
+    ctx.trust('transformation laws: X ~ Gamma(a, s) => c / X ~ InverseGamma(a, c / s); Erlang(k, scale) = Gamma(k, scale)')
+    LAWS = [('DistPearson5', 'reciprocal', 'alpha', 'beta'), ('DistErlang', 'same', 'k', 'scale')]
+    n = 0
+    for (c, form, pshape, pscale) in LAWS:
+        ci = prog.classes.get(c)
+        if ci is None:
+            raise AnalysisError(f'anchor vanished: class {c}')
+        helpers = []
+        for m, fn in ci.methods.items():
+            for a in ast.walk(fn):
+                if isinstance(a, (ast.Assign, ast.AnnAssign)) and getattr(a, 'value', None) is not None:
+                    for call in ast.walk(a.value):
+                        if isinstance(call, ast.Call) and unparse(call.func) == 'DistGamma' and len(call.args) == 3 and not call.keywords:
+                            for t in (a.targets if isinstance(a, ast.Assign) else [a.target]):
+                                if isinstance(t, ast.Attribute):
+                                    helpers.append((t.attr, call, fn))
+        if not helpers:
+            raise AnalysisError(f'anchor vanished: {c} builds no helper DistGamma')
+        fdefs, params = ctor_field_defs(prog, c)
+        for (h, call, fn) in helpers:
+            n += 1
+            tr = Translator(prog, c, fdefs)
+            tr.set_ctor_params(params)
+            tr.positive = positive_ctor_params(prog, c)
+            try:
+                shape = tr.expr(call.args[1], {}, c)
+                scale = tr.expr(call.args[2], {}, c)
+                ok_shape = shape.equals(Rat(p_atom(pshape)))
+                num = Rat(p_atom('__one')) if False else None
+                if form == 'same':
+                    ok_scale = scale.equals(Rat(p_atom(pscale)))
+                    got = f'scale {scale!r}'
+                else:
+                    dc, dfn = prog.resolve(c, 'draw')
+                    rets = [r for r in ast.walk(dfn) if isinstance(r, ast.Return) and isinstance(r.value, ast.BinOp) and isinstance(r.value.op, ast.Div)
+                            and unparse(r.value.right) == f'self.{h}.draw()']
+                    if len(rets) != 1:
+                        raise Unsupported(f'{c}.draw is not `c / self.{h}.draw()`')
+                    cnum = tr.expr(rets[0].value.left, {}, c)
+                    ok_scale = (cnum / scale).equals(Rat(p_atom(pscale)))
+                    got = f'{cnum!r} / scale {scale!r}'
+            except Unsupported as e:
+                ctx.note(f'R15.11: {c}.{h}: not expressible in the algebra ({e}); not decided')
+                continue
+            ok = ok_shape and ok_scale
+            ctx.ob('R15.11', f'{c}.{h}', ok, sample=f'{c}.{h} = DistGamma(shape {shape!r}, scale {scale!r}); law requires shape {pshape}, {"scale" if form == "same" else "c / scale"} == {pscale}')
+            if not ok:
+                ctx.finding('R15.11', f'{c}.{h}:parameters', ci, call,
+                            f'{c} draws from `{short(call, 60)}`: ' + (f'its shape is {shape!r}, not {pshape}; ' if not ok_shape else '') +
+                            (f'{got} is not {pscale}; ' if not ok_scale else '') +
+                            f'the sampler then follows another member of the family than the density / cdf the class declares', where=f'{c}.{fn.name}')
+    ctx.floor('R15.11', 'helper Gamma constructions', n, 2)
